@@ -450,6 +450,18 @@ class ZipSym(Sym):
         self.lists = lists
 
 
+class SliceSym(Sym):
+    """L[a:b] of a list of symbolic length: a read-only window on a snapshot of L (offset `lo`, `n` elements, both z3
+    ints, already normalised and clamped the way python does).  Meaningful to zip(), generator expressions, len() and
+    loops with an invariant; anything else is Unsupported."""
+    __slots__ = ('lst', 'lo', 'n')
+
+    def __init__(self, lst, lo, n):
+        self.lst = lst
+        self.lo = lo
+        self.n = n
+
+
 class RevSym(Sym):
     """reversed(<list of symbolic length>): only meaningful to loops with an invariant"""
     __slots__ = ('lst',)
